@@ -10,6 +10,9 @@
                     it returns exist and bind get_veff; _CiderDF / Gradients aliases point at it
  grad-half          the weighted potential passed to _gga_grad_sum_ / _tau_grad_dot_ has its density row
                     (and tau row) halved exactly once on the way
+ grad-xyz-slots     conv_interpolation.c (clang AST): in every routine the members of a declared x / y / z triple (ix,
+                    iy, iz; dx, dy, dz; ...) are all used, integer slot indices equally often, and a 3-element
+                    component table lists three distinct members
  grad-spin-mirror   uks_grad.py: every statement that addresses exactly one spin channel through a literal spin slot
                     (dms[1], vmat[0], wv[1, 4], spin=1 ...) occurs as often as its mirror image under the exchange
                     of the spin-tagged locals (…a <-> …b, alpha <-> beta) and of the slot 0 <-> 1
@@ -149,6 +152,77 @@ def rule_half(chk):
     ks.half_rule(chk, "grad-half", chk.tree, [(RKSG, n) for n in GRADS] + [(UKSG, n) for n in GRADS])
 
 
+CONV_C = "mod_cider/conv_interpolation.c"
+
+
+def _xyz_triples(names):
+    """(nx, ny, nz): declared names that differ only by one x / y / z letter at the same position"""
+    names = set(names)
+    out = []
+    for n in sorted(names):
+        for i, ch in enumerate(n):
+            if ch == "x":
+                y, z = n[:i] + "y" + n[i + 1:], n[:i] + "z" + n[i + 1:]
+                if y in names and z in names:
+                    out.append((n, y, z))
+    return out
+
+
+def rule_xyz_slots(chk):
+    """C routines of conv_interpolation.c (the l=1 / gradient terms): the Cartesian component slots come in
+    x / y / z triples (ix, iy, iz; dx, dy, dz; auxox_l, ...).  Every member of a declared triple is used; integer
+    slot indices are used equally often; a 3-element component table lists three distinct members."""
+    from sa import cfacts
+    tu = cfacts.TU(chk.tree, CONV_C)
+    rel = cfacts.LIB + "/" + CONV_C
+    n_tr = 0
+    for fname, f in sorted(tu.funcs.items()):
+        decls = {}
+        for n in cfacts.walk(f):
+            if n.get("kind") in ("ParmVarDecl", "VarDecl") and n.get("name"):
+                decls[n["name"]] = (n.get("type") or {}).get("qualType", "")
+        refs = {}
+        tables = []
+        for n in cfacts.walk(f):
+            if n.get("kind") == "DeclRefExpr":
+                nm = (n.get("referencedDecl") or {}).get("name")
+                refs[nm] = refs.get(nm, 0) + 1
+            if n.get("kind") == "InitListExpr":
+                el = [(cfacts.strip(k).get("referencedDecl") or {}).get("name") for k in cfacts.kids(n)
+                      if k.get("kind") != "ImplicitValueInitExpr"]
+                tables.append((el, n))
+        triples = _xyz_triples(decls)
+        members = {m: t for t in triples for m in t}
+        for t in triples:
+            n_tr += 1
+            cnt = [refs.get(x, 0) for x in t]
+            inst = "%s:%s component triple %s used %s" % (rel, fname, "/".join(t), cnt)
+            is_int = all(decls[x].replace("const ", "").strip() in ("int", "size_t", "long", "unsigned int") for x in t)
+            if min(cnt) == 0 and max(cnt) > 0:
+                miss = [x for x, c in zip(t, cnt) if c == 0]
+                chk.violation("grad-xyz-slots", rel, fname, "component triple %s" % "/".join(t), tu.line_of(f),
+                              "the Cartesian component slot(s) %s of the triple (%s) are never used in %s while the "
+                              "others are (%s): one component is computed from another component's slot" % (
+                                  ", ".join(miss), ", ".join(t), fname, dict(zip(t, cnt))), instance=inst)
+            elif is_int and len(set(cnt)) != 1:
+                chk.violation("grad-xyz-slots", rel, fname, "component triple %s" % "/".join(t), tu.line_of(f),
+                              "the integer component slots (%s) are used %s times: the x / y / z blocks of %s are "
+                              "not treated alike" % (", ".join(t), dict(zip(t, cnt)), fname), instance=inst)
+            else:
+                chk.ok("grad-xyz-slots", inst)
+        for el, node in tables:
+            if len(el) == 3 and all(e in members for e in el):
+                inst = "%s:%s component table {%s}" % (rel, fname, ", ".join(el))
+                t = members[el[0]]
+                if sorted(el) != sorted(t):
+                    chk.violation("grad-xyz-slots", rel, fname, "table {%s}" % ", ".join(el), tu.line_of(node),
+                                  "the component table {%s} does not list the three distinct slots (%s): a component is "
+                                  "duplicated and another is missing" % (", ".join(el), ", ".join(t)), instance=inst)
+                else:
+                    chk.ok("grad-xyz-slots", inst)
+    chk.count("x/y/z component triples in conv_interpolation.c", n_tr)
+
+
 def rule_spin_mirror(chk):
     ks.spin_mirror_rule(chk, "grad-spin-mirror", chk.tree, UKSG, GRADS + ["get_veff"])
 
@@ -175,6 +249,7 @@ def _analyse_rules(chk):
     chk.rule("unsupported-raise", "SDMX / NLOF models raise NotImplementedError before any eval_xc_cider call")
     chk.rule("dispatch-total", "nuc_grad_method returns a matching Gradients class or raises on every path")
     chk.rule("grad-half", "density / tau rows of the weighted potential halved exactly once before the contraction")
+    chk.rule("grad-xyz-slots", "conv_interpolation.c: every member of an x/y/z slot triple is used (index slots equally often); tables list 3 distinct slots")
     chk.rule("grad-spin-mirror", "uks_grad: a statement addressing one literal spin slot has its alpha<->beta mirror image")
     chk.rule("grad-batch-index", "batch-index discipline on the gradient functions")
     chk.guard(rule_unsupported)
@@ -182,6 +257,8 @@ def _analyse_rules(chk):
     chk.guard(rule_half)
     chk.guard(rule_batch)
     chk.guard(rule_spin_mirror)
+    chk.guard(rule_xyz_slots)
+    chk.floor("grad-xyz-slots", 8, "x/y/z component triples of the l=1 / gradient routines")
     chk.floor("grad-spin-mirror", 6, "statements addressing one spin slot in the four UKS gradient functions")
     chk.floor("unsupported-raise", 8, "8 entry points x {SDMX, NLOF}")
     chk.floor("dispatch-total", 3, "1 totality + 4 returns + aliases")
@@ -246,6 +323,10 @@ def mutants(tree):
                "rks_grad._tau_grad_dot_(vmat[1], mol, ao, wv[0, 4], mask, ao_loc, True)", expect="grad-spin-mirror"),
         Mutant("beta features from the alpha density", UKSG, "ni.nldfgen.get_features(rhob_full, spin=1)",
                "ni.nldfgen.get_features(rhoa_full, spin=1)", expect="grad-spin-mirror"),
+        Mutant("z force term taken from the y slot (C)", "ciderpress/lib/mod_cider/conv_interpolation.c",
+               "fac = f0_q[ig] * f1_q[iz];", "fac = f0_q[ig] * f1_q[iy];", expect="grad-xyz-slots"),
+        Mutant("l=1 backward term reads the x slot twice (C)", "ciderpress/lib/mod_cider/conv_interpolation.c",
+               "f_q[ig] += dz * f_q[iz];", "f_q[ig] += dz * f_q[ix];", count=2, expect="grad-xyz-slots"),
         Mutant("stale batch index in gradient", RKSG, "        _gga_grad_sum_(vmat[idm], mol, ao, wv, mask, ao_loc)",
                "        _gga_grad_sum_(vmat[i], mol, ao, wv, mask, ao_loc)", expect="grad-batch-index"),
     ]
